@@ -348,10 +348,13 @@ pub fn run(ctx: &Ctx) -> (Spec, Report) {
     {
         let scratch = ctx.scratch("bad-among-good");
         let cli = ctx.cli.clone();
-        let bad_items: [(&str, &str); 3] = [
-            ("tuple-struct", "#[typeshare]\npub struct Qpairbad(pub u32, pub String);\n"),
-            ("union", "#[typeshare]\npub union Qpairbad { a: u8, b: u16 }\n"),
-            ("unsupported-field-type", "#[typeshare]\npub struct Qpairbad { pub big: u64 }\n"),
+        // (what, source, what a successful run has to contain)
+        let bad_items: [(&str, &str, &str); 5] = [
+            ("tuple-struct", "#[typeshare]\npub struct Qpairbad(pub u32, pub String);\n", "qpairbad"),
+            ("union", "#[typeshare]\npub union Qpairbad { a: u8, b: u16 }\n", "qpairbad"),
+            ("unsupported-field-type", "#[typeshare]\npub struct Qpairbad { pub big: u64 }\n", "qpairbad"),
+            ("unsupported-struct-variant-field-type", "#[typeshare]\n#[serde(tag = \"t\", content = \"c\")]\npub enum Qpairbad { Plain, Rec { first: u32, qbigfield: u64, #[typeshare(skip)] scratch: u8, last: String } }\n", "qbigfield"),
+            ("unsupported-tuple-type-in-struct-variant", "#[typeshare]\n#[serde(tag = \"t\", content = \"c\")]\npub enum Qpairbad { Rec { qbigfield: (u32, u32), last: String }, Plain }\n", "qbigfield"),
         ];
         let perms = ["0,1,2", "0,2,1", "1,0,2", "1,2,0", "2,0,1", "2,1,0"];
         let mut cases = vec![];
@@ -370,7 +373,7 @@ pub fn run(ctx: &Ctx) -> (Spec, Report) {
         let cases_ref = &cases;
         let r = crate::report::par_shards(ctx.threads, cases.len(), |i| {
             let (bi, lang, multi, perm) = cases_ref[i];
-            let (what, bad) = bad_items[bi];
+            let (what, bad, needle) = bad_items[bi];
             let mut rep = Report::new();
             let root = scratch.join(format!("b{i}"));
             crate::sut::write_tree(
@@ -390,10 +393,10 @@ pub fn run(ctx: &Ctx) -> (Spec, Report) {
             rep.cell(format!("bad-among-good|{what}|{}|multi={multi}|{}", lang.name(), if o.ok() { "exit0" } else { "failed" }));
             if o.ok() {
                 let text: String = if multi { crate::sut::read_dir_files(&out).values().map(|b| String::from_utf8_lossy(b).to_lowercase()).collect::<Vec<_>>().join("\n") } else { std::fs::read_to_string(&out).unwrap_or_default().to_lowercase() };
-                if !text.contains("qpairbad") {
+                if !text.contains(needle) {
                     rep.violate(
                         format!("C03|cli|annotated-item-silently-omitted|{what}"),
-                        format!("{} ({}): the run succeeds but `Qpairbad` ({what}) is in no output; files delivered in order {perm}", lang.name(), if multi { "folder" } else { "single file" }),
+                        format!("{} ({}): the run succeeds but `{needle}` ({what}) is in no output; files delivered in order {perm}", lang.name(), if multi { "folder" } else { "single file" }),
                         json!({"language": lang.name(), "multi_file": multi, "args": args, "delivery_order": perm, "stderr": o.stderr.chars().take(600).collect::<String>(), "output": text.chars().take(1500).collect::<String>()}),
                     );
                 }
@@ -508,7 +511,7 @@ pub fn run(ctx: &Ctx) -> (Spec, Report) {
     }
     let spec = Spec {
         level: "exploration",
-        rule: format!("{n} generated files (Scala and Kotlin under dotted / single-segment / two-segment / absent packages) mixing annotated and un-annotated items at module depth 0-4 and inside function bodies / anonymous const blocks, a quarter of them with two structs of one Rust identifier in two modules (different serde names), #[typeshare] / #[typeshare::typeshare] / with arguments, serde(skip) / typeshare(skip) on random subsets of fields, variants and struct-variant fields, any attribute order, five source layouts (rustfmt-like, attribute behind another attribute or a block comment on the same line, all attributes and the item on one line, CRLF + tabs), x up to 6 languages; definitions and members are attributed to source elements by unique stems and compared with the generator's item list (count, kind, order); decoy and skipped stems are searched over the whole output; plus the real binary with the input named twice (same directory twice, a directory and one of its sub-directories, in both orders): byte-identical to naming it once; plus a crate with source files that are symbolic links to a file outside the input directory (relative and absolute link, with and without --follow-links); plus 'cannot be generated' cells (const / union / DateTime per backend; through the binary a tuple struct / union / u64 field in one of three files of a crate, all six delivery orders, single file and folder): error or definition, never success without definition; distinct = (language, item kind, module depth, annotation spelling) and (language, struct-variant, has-skipped)"),
+        rule: format!("{n} generated files (Scala and Kotlin under dotted / single-segment / two-segment / absent packages) mixing annotated and un-annotated items at module depth 0-4 and inside function bodies / anonymous const blocks, a quarter of them with two structs of one Rust identifier in two modules (different serde names), #[typeshare] / #[typeshare::typeshare] / with arguments, serde(skip) / typeshare(skip) on random subsets of fields, variants and struct-variant fields, any attribute order, five source layouts (rustfmt-like, attribute behind another attribute or a block comment on the same line, all attributes and the item on one line, CRLF + tabs), x up to 6 languages; definitions and members are attributed to source elements by unique stems and compared with the generator's item list (count, kind, order); decoy and skipped stems are searched over the whole output; plus the real binary with the input named twice (same directory twice, a directory and one of its sub-directories, in both orders): byte-identical to naming it once; plus a crate with source files that are symbolic links to a file outside the input directory (relative and absolute link, with and without --follow-links); plus 'cannot be generated' cells (const / union / DateTime per backend; through the binary a tuple struct / union / u64 field / unsupported struct-variant field in one of three files of a crate, all six delivery orders, single file and folder): error or definition, never success without definition; distinct = (language, item kind, module depth, annotation spelling) and (language, struct-variant, has-skipped)"),
         assumptions: vec!["stems (q + 5 letters, no other 'q' in generated words) identify source elements after case conversion".into()],
         exhaustive: None,
     };
